@@ -642,7 +642,18 @@ func BigPacket(r *core.Rand) rtcp.Packet {
 			for i := range cs {
 				cs[i] = rtcp.Chunk(r.U16())
 			}
-			x.Reports = append(x.Reports, &rtcp.LossRLEReportBlock{T: uint8(r.Intn(16)), SSRC: r.B32(), Chunks: cs})
+			switch r.Intn(3) {
+			case 0:
+				x.Reports = append(x.Reports, &rtcp.LossRLEReportBlock{T: uint8(r.Intn(16)), SSRC: r.B32(), Chunks: cs})
+			case 1:
+				x.Reports = append(x.Reports, &rtcp.DuplicateRLEReportBlock{T: uint8(r.Intn(16)), SSRC: r.B32(), Chunks: cs})
+			default:
+				ts := make([]uint32, len(cs)/2)
+				for i := range ts {
+					ts[i] = r.U32()
+				}
+				x.Reports = append(x.Reports, &rtcp.PacketReceiptTimesReportBlock{T: uint8(r.Intn(16)), SSRC: r.B32(), BeginSeq: r.U16(), EndSeq: r.U16(), ReceiptTime: ts})
+			}
 		}
 		x.Reports = append(x.Reports, &rtcp.ReceiverReferenceTimeReportBlock{NTPTimestamp: r.U64()})
 		return x
